@@ -136,37 +136,4 @@ theorem hbOff_flags (w : W) : (hbOff w).inError = w.inError ∧ (hbOff w).inMeh 
 @[simp] theorem hbOff_inter (w : W) : (hbOff w).inter = w.inter := (hbOff_same w).inter
 attribute [simp] hbOff_hbs hbOff_curHb
 
-/-- the observable core of a state as far as error_handler() is concerned -/
-structure Core where
-  inError : Bool
-  inMeh : Bool
-  curHb : Option Oid
-  hbs : List Oid
-  users : Option (List (Option Conn))
-  callouts : List CallOut
-  ctxDepth : Nat
-  crashedIsNone : Bool
-
-def core (w : W) : Core :=
-  { inError := w.inError, inMeh := w.inMeh, curHb := w.curHb, hbs := w.hbs, users := w.users,
-    callouts := w.callouts, ctxDepth := w.ctxDepth, crashedIsNone := w.crashed.isNone }
-
-/-- callMasterHandler entered with in_error = 0 (handler behaviours `ok` and `raise`): if it returns normally nothing
-    but the report happened; if it left through a nested error, the flags are clear and the shut-off step was done -/
-theorem callMasterHandler_core (fuel : Nat) (w : W) (msg : String) (h : w.inError = false)
-    (hm : w.meh ≠ .recurse) :
-    ((callMasterHandler fuel w msg).2 = false → core (callMasterHandler fuel w msg).1 = core w ∧
-        (callMasterHandler fuel w msg).1.dead = w.dead) ∧
-    ((callMasterHandler fuel w msg).2 = true →
-      core (callMasterHandler fuel w msg).1 =
-        { core w with inError := false, inMeh := false, curHb := none, hbs := hbsAfterOff w }) := by
-  cases fuel with
-  | zero => simp [callMasterHandler, emit, core]
-  | succ n =>
-    unfold callMasterHandler
-    cases hm' : w.meh with
-    | ok => simp [emit, hm', core]
-    | raise => simp [emit, hm', core, hbsAfterOff]
-    | recurse => exact absurd hm' hm
-
 end NV.C09
